@@ -15,7 +15,7 @@ RULE = ('enumeration: kind {Thread, Process} x ending {return of 7 value classes
         'custom __reduce__ constructors and BaseExceptions, sys.exit(None|0|1|3|"bye"), terminate()} x first accessor {join, result, exception, done, '
         'exitcode, wait, as_completed} called right after start(); Process x signal {TERM, KILL, SEGV, ABRT, INT} x phase {before target, during, after '
         'the result was sent} x first accessor {join, exception, wait, as_completed}. After the first accessor every other accessor is called and the '
-        'consistency table of DESIGN C12 is evaluated. non-trivial = ending other than a plain return of None; distinct = distinct case tuples')
+        'consistency table of DESIGN C12 is evaluated. non-trivial = ending other than a plain return of None; distinct = distinct case tuples; further endings: SIGHUP/USR1/QUIT/BUS/ALRM and unnamed real-time signals, a return value that cannot be pickled, os._exit; keyword arguments passed through a dict the caller keeps (half of the cases)')
 ASSUMPTIONS = ['every accessor call is bounded by 20 s (typical: ms for threads, <1 s for processes) AND three identical stack samples => hang',
                'SIGTERM is treated as terminate() (success, None, exitcode -15) as the library documents; kill after the result was sent must leave the result intact',
                'SIGINT before the target started is only required to be consistent among accessors and bounded']
